@@ -354,7 +354,8 @@ def correspond(ctx, proof_ok=True):
         fl_in = flat(c['inloglam'])
         iv_in = flat(c['ivar'])
         if c['shape'] == 'single' and c['kind'] in ('const', 'smooth') and (iv_in is None or min(iv_in) > 0):
-            lo_in, hi_in = fl_in[3], fl_in[-4]
+            step_out = abs(c['newloglam'][1] - c['newloglam'][0]) if n_new > 1 else 0.0
+            lo_in, hi_in = fl_in[3] + 3 * step_out, fl_in[-4] - 3 * step_out     # the growth reaches 2 OUTPUT pixels
             lost = [k for k in range(n_new) if lo_in <= c['newloglam'][k] <= hi_in and not good_out[k]]
             if lost:
                 viol('C11:combine1fiber:%s:good-input-lost' % var,
